@@ -42,7 +42,7 @@ ASSUMPTIONS = [
 SHARDS = {"quick": 16, "thorough": 16}
 TIMEOUT = {"quick": 900, "thorough": 7200}
 MIN_CASES = {"quick": 3000, "thorough": 40000}
-REQUIRED_COUNTERS = ["pairing_roundtrips", "database_roundtrips", "fixtures_roundtripped", "unparsable_caches_tolerated", "crash_points_injected", "crash_points_survived", "file_ops_enumerated", "database_update_histories"]
+REQUIRED_COUNTERS = ["pairing_roundtrips", "database_roundtrips", "fixtures_roundtripped", "unparsable_caches_tolerated", "crash_points_injected", "crash_points_survived", "file_ops_enumerated", "database_update_histories", "saves_after_crash_checked"]
 
 
 def tmpdir():
@@ -312,7 +312,7 @@ def database_roundtrip(ctx, entity_map, label, rng, transport="IP") -> None:
         # _update_accessories_state_cache / _update_cached_state_num), a restart after each: the LAST saved values survive ----
         cur = {"config_num": config_num, "state_num": state_num, "bkey": bkey}
         for step in range(rng.randint(1, 4)):
-            what = rng.choice(["state_num", "state_num", "bkey", "config_num", "value", "nothing"])
+            what = rng.choice(["state_num", "state_num", "bkey", "config_num", "value", "nothing", "state_none", "bkey_none"])
             st = p1._accessories_state
             try:
                 if what == "state_num":
@@ -322,6 +322,15 @@ def database_roundtrip(ctx, entity_map, label, rng, transport="IP") -> None:
                     else:
                         st.state_num = cur["state_num"]
                         p1._update_accessories_state_cache()
+                elif what == "state_none":
+                    # BlePairing does exactly this after a configuration change: the state number becomes unknown again
+                    cur["state_num"] = None
+                    st.state_num = None
+                    p1._update_accessories_state_cache()
+                elif what == "bkey_none":
+                    cur["bkey"] = None
+                    st.broadcast_key = None
+                    p1._update_accessories_state_cache()
                 elif what == "bkey":
                     cur["bkey"] = rng.randbytes(32)
                     st.broadcast_key = cur["bkey"]
@@ -546,6 +555,25 @@ def crash_case(ctx, si, old, new, crash_at, d, oplog_box) -> None:
         ctx.violation("interrupted-save-mixes-states", f"{where}: loaded data is neither the complete old nor the complete new set", replay)
         return
     ctx.count("crash_points_survived")
+    # ---- the NEXT, uninterrupted saves after the crash: whatever the interrupted save left behind (e.g. a stale temp file)
+    # must not leak into them - a shorter document, an empty one, then the full new set again
+    first = dict(list(new.items())[:1])
+    for label, want_set in (("shorter", first), ("empty", {}), ("full", new)):
+        c3 = make_controller()
+        for alias, pd in want_set.items():
+            c3.load_pairing(alias, copy.deepcopy(pd))
+        want = loaded(c3)
+        try:
+            c3.save_data(path)
+            c4 = make_controller()
+            c4.load_data(path)
+        except Exception as ex:  # noqa: BLE001
+            ctx.violation("save-after-interrupted-save-unreadable", f"{where}; then an uninterrupted save of the {label} set ({len(want_set)} pairings): reload fails with {ex!r} (files: {sorted(os.listdir(d))})", replay)
+            return
+        if loaded(c4) != want:
+            ctx.violation("save-after-interrupted-save-differs", f"{where}; then an uninterrupted save of the {label} set: reloaded data differs", replay)
+            return
+    ctx.count("saves_after_crash_checked")
 
 
 def crash_part(ctx) -> None:
